@@ -486,6 +486,19 @@ def scan_assumptions(text):
 
 
 def run_unit(name, spec, tier):
+    """One Verus unit.  Checks of different properties may run at the same time and share units:
+    the generated files of a unit are protected by a per-unit file lock."""
+    import fcntl
+    os.makedirs(BUILD, exist_ok=True)
+    with open(os.path.join(BUILD, name + ".lock"), "w") as lk:
+        fcntl.flock(lk, fcntl.LOCK_EX)
+        try:
+            return _run_unit_locked(name, spec, tier)
+        finally:
+            fcntl.flock(lk, fcntl.LOCK_UN)
+
+
+def _run_unit_locked(name, spec, tier):
     res = {"unit": name, "backend": "verus", "obligations": 0, "discharged": 0, "failures": [],
            "undecided": [], "functions": [], "cmds": [], "solver_time_s": 0.0, "wall_s": 0.0,
            "trusted": list(spec.get("trusted", [])), "bounded": [], "samples": [],
